@@ -40,6 +40,7 @@ type context struct {
 	store     *py.ModuleStore
 	opts      py.ContextOpts
 	closeOnce sync.Once
+	mu        sync.Mutex // makes the admission test and the busy count one step with respect to closing
 	closing   bool
 	closed    bool
 	running   sync.WaitGroup
@@ -193,7 +194,9 @@ func (ctx *context) ResolveAndCompile(pathname string, opts py.CompileOpts) (py.
 }
 
 func (ctx *context) pushBusy() error {
-	if ctx.closed {
+	ctx.mu.Lock()
+	defer ctx.mu.Unlock()
+	if ctx.closing {
 		return py.ExceptionNewf(py.RuntimeError, "Context closed")
 	}
 	ctx.running.Add(1)
@@ -207,7 +210,9 @@ func (ctx *context) popBusy() {
 // See interface py.Context defined in py/run.go
 func (ctx *context) Close() error {
 	ctx.closeOnce.Do(func() {
+		ctx.mu.Lock()
 		ctx.closing = true
+		ctx.mu.Unlock()
 		ctx.running.Wait()
 		ctx.closed = true
 
